@@ -9,7 +9,7 @@
 //   block, raw-save, and read the saved reference fields back: each must have
 //   followed the deletion; each string index must still denote the same text.
 #include "harness.hpp"
-#include "synth.hpp"
+#include "cases.hpp"
 
 using namespace nifly;
 using namespace vf;
@@ -237,8 +237,17 @@ Verdict checkCase(const std::string& type, size_t vi, Tape& tape, Run& run) {
 Verdict prop(Tape& t, Run& run) {
 	auto& types = registeredTypes();
 	size_t ti = t.u16() % types.size();
-	size_t vi = t.u8() % versions().size();
-	return checkCase(types[ti], vi, t, run);
+	// version byte >= 0xE0: one integer-like read of the subject is forced (one-factor sweep, cases.hpp)
+	uint8_t vb = t.u8();
+	size_t vi = (vb >= 0xE0 ? vb - 0xE0 : vb) % versions().size();
+	if (vb >= 0xE0) {
+		force().read = t.u8() % kSweepMaxReads;
+		force().value = t.u8() % kSweepMaxValue;
+		run.cls("forced-read");
+	}
+	Verdict v = checkCase(types[ti], vi, t, run);
+	force() = Force();
+	return v;
 }
 
 // Exhaustive over type x version with pattern tapes (no randomness)
@@ -254,6 +263,18 @@ void deterministic(Run& run, const std::function<void(const std::vector<uint8_t>
 				tape.resize(3 + (patterns[p] ? 600 : 0), patterns[p]);
 				feed(tape);
 			}
+	// forced-read sweep (tapes that reach read sites the pattern tapes do not), re-encoded for this harness
+	const bool th = run.args.tier == "thorough";
+	uint64_t tried = 0, novel = 0;
+	run.feedAll = true;
+	sweepCells(run.args.shard, run.args.nshards, th ? 24 : 8, th ? 32 : 24, np, [&](const std::vector<uint8_t>& s) {
+		std::vector<uint8_t> tape = {s[1], s[2], static_cast<uint8_t>(0xE0 + s[3]), s[4], s[5]};
+		tape.insert(tape.end(), s.begin() + 6, s.end());
+		feed(tape);
+	}, tried, novel);
+	run.feedAll = false;
+	run.cls("sweep:forced-reads-tried", tried);
+	run.cls("sweep:tapes-reaching-new-read-sites", novel);
 }
 
 } // namespace
